@@ -45,6 +45,11 @@ Section SB.
   (** captures only (a typical quiescence policy; used by the correspondence runs) *)
   Definition captures_only (g : gboard) : (move -> Z) * (gboard -> move -> bool) := (mvvlva, fun _ m => is_capture_or_ep m).
 
+  (** a selective policy whose predicate looks at the board AFTER the move (the Exploration contract of
+      pkg/search asks the predicate about a move that has just been pushed): captures and checking moves *)
+  Definition checks_or_captures (g : gboard) : (move -> Z) * (gboard -> move -> bool) :=
+    (mvvlva, fun g1 m => is_capture_or_ep m || is_checked (b_position (fst g1) (snd g1)) (b_turn (snd g1))).
+
   (** table variants *)
   Inductive ttv := NoTT | TableTT (t : table) | MinDepthTT (min : Z) (t : table).
   Definition ttv_read (t : ttv) (h : N) : option (N * Z * score * move) :=
